@@ -78,12 +78,24 @@ pub struct PlannerTrace {
 std::thread_local! {
     static TRACE: RefCell<PlannerTrace> = RefCell::new(PlannerTrace::default());
     static STEP_CAP: Cell<usize> = Cell::new(usize::MAX);
+    static TOTALS: Cell<(usize, usize)> = Cell::new((0, 0));
     static LAST_PLAN: RefCell<Option<Vec<(usize, EncodationType)>>> = RefCell::new(None);
     static PLAN_OVERRIDE: RefCell<Option<Vec<(usize, EncodationType)>>> = RefCell::new(None);
 }
 
 pub(crate) fn planner_reset() {
     TRACE.with(|t| *t.borrow_mut() = PlannerTrace::default());
+    TOTALS.with(|t| {
+        let (calls, steps) = t.get();
+        t.set((calls + 1, steps));
+    });
+}
+
+/// Number of `optimize()` calls and of `Plan::step()` calls on this thread since the last call of this
+/// function (the per-call trace above is reset by every `optimize()`; an encoder that plans more than once
+/// per message is only visible here).
+pub fn planner_totals() -> (usize, usize) {
+    TOTALS.with(|t| t.replace((0, 0)))
 }
 
 pub(crate) fn planner_count_step() {
@@ -91,6 +103,10 @@ pub(crate) fn planner_count_step() {
         let mut t = t.borrow_mut();
         t.steps += 1;
         t.steps
+    });
+    TOTALS.with(|t| {
+        let (calls, total) = t.get();
+        t.set((calls, total + 1));
     });
     if steps > STEP_CAP.with(|c| c.get()) {
         panic!("verif: planner step cap exceeded");
